@@ -240,13 +240,25 @@ def handle : List String → String
       -- `gone` sets first; if the implementation's result is not that one, the variants in which
       -- some rounds' sleeps run to their end are tried (what happens then is still the model's
       -- business: the next round, those calls ending with their own-context error).
+      -- (equal, or equal up to the one tolerated choice judged further down: a call without answer in
+      -- a group entered with a done context may end with its own-context or the batch-context error)
+      let implS := implSlots resS
       let agreesWith := fun (m : Outcome Result) => match m with
-        | .ok mr => joinWith "." (mr.res.map slotStr) == resS && (if mr.allOK then "1" else "0") == okS &&
-                    queueStr mr.events == qS
+        | .ok mr =>
+          (joinWith "." (mr.res.map slotStr) == resS ||
+            (mr.res.length = implS.length && (List.range implS.length).all fun i =>
+              match mr.res[i]?, implS[i]?, batch[i]? with
+              | some s, some t, some c =>
+                slotStr s = t || (mr.interrupted && s.err = some .batchCtx &&
+                  slotStr { s with err := some (.ownCtx c) } = t)
+              | _, _, _ => false)) &&
+          (if mr.allOK then "1" else "0") == okS && queueStr mr.events == qS
         | _ => false
       let nR := rounds0.length
-      let variant := fun (mask : Nat) => rounds0.zipIdx.map fun (r, i) =>
-        if mask.testBit i then { r with gaveUp := fun _ => false } else r
+      -- (the variant is resolved afresh: where a cancellation "at call j" falls in a later round
+      -- depends on which calls are still retried, i.e. on the rounds before it)
+      let variant := fun (mask : Nat) => resolve info batch (prs.zipIdx.map fun (p, i) =>
+        if mask.testBit i then { p with gone := [] } else p) [] 0
       let m0 := sendBatch info batch rounds0
       let alt := if agreesWith m0 || !(prs.any (fun p => !p.gone.isEmpty)) then none
         else (List.range (2 ^ (min nR 6))).findSome? fun mask =>
